@@ -8,6 +8,7 @@ pub mod batch;
 pub mod keylen;
 pub mod names;
 pub mod wblock;
+pub mod zeroize;
 pub mod weak;
 pub mod kat;
 pub mod roundtrip;
